@@ -45,8 +45,13 @@ class Run(_Scope):
             else:
                 f = it.class_attr(tinfo, "run", V.VCls(z3.IntVal(tinfo.cid)))
                 ret = it.call(f, CallArgs([fn], star=args, starstar=kwargs))
-        except PyRaise:
-            st.check("C06-P1:spawning-never-raises", z3.BoolVal(False))
+        except PyRaise as pr:
+            refused = st.ghost.get("$tg_refused", 0)
+            st.check("C06-P1:spawning-fails-only-when-the-current-group-refuses-the-task",
+                     z3.And(z3.BoolVal(in_scope and refused == 1), is_exc(it, pr.val, "RuntimeError")))
+            st.check("C06-P1:a-refused-spawn-creates-no-task-outside-the-group",
+                     z3.BoolVal(not st.ghost.get("$tasks", [])))
+            st.check("canary", z3.BoolVal(False), kind="canary")
             return
         tasks = st.ghost.get("$tasks", [])
         st.check("C06-P1:exactly-one-task-is-created-and-returned",
